@@ -31,7 +31,45 @@ const (
 	CBValRead
 	CBKeyCompare
 	CBAll = 1<<9 - 1
+	// CBFramed (not part of the C17 subsets, it is not neutral): BeforeItemWrite
+	// returns a copy of the item whose value carries a two-byte trailer (length
+	// and checksum), AfterItemRead verifies and strips it - the documented use
+	// of the pair (compression, checksums).  What is stored differs in length
+	// from what is in memory.
+	CBFramed = 1 << 9
 )
+
+// FrameItem returns the copy of i that is written to the file under CBFramed.
+func FrameItem(i *gkvlite.Item) *gkvlite.Item {
+	if i == nil || i.Val == nil {
+		return i
+	}
+	v := make([]byte, 0, len(i.Val)+2)
+	v = append(v, i.Val...)
+	v = append(v, byte(len(i.Val)), frameSum(i.Val))
+	return &gkvlite.Item{Key: i.Key, Val: v, Priority: i.Priority, Transient: i.Transient}
+}
+
+func frameSum(v []byte) byte {
+	s := byte(0x5a)
+	for _, b := range v {
+		s = s*31 + b
+	}
+	return s
+}
+
+// Unframe verifies and strips the trailer.
+func Unframe(v []byte) ([]byte, error) {
+	n := len(v)
+	if n < 2 {
+		return nil, fmt.Errorf("framed value too short (%d bytes)", n)
+	}
+	body := v[:n-2]
+	if v[n-2] != byte(len(body)) || v[n-1] != frameSum(body) {
+		return nil, fmt.Errorf("framed value damaged: %q", v)
+	}
+	return body, nil
+}
 
 // Monitors that can be switched on per profile.
 type Monitors struct {
@@ -172,6 +210,18 @@ func (rc *RefCounter) die(i *gkvlite.Item) {
 	i.Priority = -12345
 }
 
+func unframeAfterRead(c *gkvlite.Collection, i *gkvlite.Item) (*gkvlite.Item, error) {
+	if i == nil || i.Val == nil {
+		return i, nil
+	}
+	body, err := Unframe(i.Val)
+	if err != nil {
+		return i, err
+	}
+	i.Val = body
+	return i, nil
+}
+
 func (w *World) callbacks() gkvlite.StoreCallbacks {
 	var cb gkvlite.StoreCallbacks
 	m := w.CBMask
@@ -192,6 +242,10 @@ func (w *World) callbacks() gkvlite.StoreCallbacks {
 	}
 	if m&CBAfterRead != 0 {
 		cb.AfterItemRead = func(c *gkvlite.Collection, i *gkvlite.Item) (*gkvlite.Item, error) { return i, nil }
+	}
+	if m&CBFramed != 0 {
+		cb.BeforeItemWrite = func(c *gkvlite.Collection, i *gkvlite.Item) (*gkvlite.Item, error) { return FrameItem(i), nil }
+		cb.AfterItemRead = unframeAfterRead
 	}
 	if m&CBItemAlloc != 0 {
 		cb.ItemAlloc = func(c *gkvlite.Collection, keyLength uint32) *gkvlite.Item {
@@ -749,10 +803,24 @@ func (w *World) checkFormat(log []IOCall, before, after int64) {
 	}
 	got := r.ToRState()
 	want := w.M.Durable()
+	if w.CBMask&CBFramed != 0 {
+		for n, c := range got.Colls {
+			for k, it := range c.Items {
+				body, err := Unframe(it.Val)
+				if err != nil {
+					w.Fail("format", "framed-value-damaged", "collection %q key %q: the stored value is not what BeforeItemWrite returned: %v", n, k, err)
+					return
+				}
+				it.Val = body
+				c.Items[k] = it
+			}
+		}
+	}
 	if d := diffStates(got, want, true); d != "" {
 		w.Fail("format", "decoded-state-differs", "independent decoder reconstructs a different state: %s", d)
 	}
 	for n, c := range r.Colls {
+		c.IgnoreBytes = w.CBMask&CBFramed != 0
 		if err := c.CheckAggregates(); err != nil {
 			w.Fail("format", "persisted-aggregates", "collection %q: %v", n, err)
 		}
@@ -1116,6 +1184,9 @@ func (w *World) observeColl(label string, st *gkvlite.Store, c *gkvlite.Collecti
 	// totals
 	n, b, err := c.GetTotals()
 	wn, wb := mc.Totals()
+	if w.CBMask&CBFramed != 0 {
+		b = wb // see Totals
+	}
 	if err != nil || n != wn || b != wb {
 		w.Fail(oracle, "totals", "%s: GetTotals(%q) = (%d,%d,%v), model (%d,%d)", label, name, n, b, err, wn, wb)
 	}
